@@ -7,7 +7,8 @@ import z3
 
 from pyvc.contract import (ARR, BOOL, DEQUE, INT, NAT, NEWOBJ, OBJ, OD, OPT, REC, STR, contract, lemma, shape)
 from pyvc.spec import (And, Iff, Implies, Ite, Not, Or, dq_isnone, dq_len, dq_val, forall_int, forall_str, is_none,
-                       od_get, od_has, od_len, od_same_map, od_unchanged, opt_val, rec_ite, sel, store)
+                       od_get, od_has, od_len, od_rank, od_same_map, od_stable, od_touched, od_unchanged, opt_val,
+                       rec_ite, sel, store)
 
 from .spec_tables import (empty_table, rec_same, spec_assign, spec_datatype_ref, spec_name_ref, spec_prefix_ref,
                           table_eq, table_wf)
@@ -110,7 +111,8 @@ class _Lookup_mlte:
     def ensures(e):
         d, o = e.self.data, e.old.self.data
         return {"map-unchanged": And(d.mem == o.mem, d.val == o.val, d.n == o.n),
-                "key-most-recent": And(d.rank == store(o.rank, e.key, o.top + 1), d.top == o.top + 1)}
+                "key-most-recent": And(d.rank == store(o.rank, e.key, o.top + 1), d.top == o.top + 1),
+                "lru-ghost": And(d.mark == o.mark, d.t == o.t + z3.If(od_rank(o, e.key) <= o.mark, 1, 0))}
 
 
 @contract(f"{SL}:Lookup.insert", serves=["C05", "C03", "C01", "C18"])
@@ -138,6 +140,11 @@ class _Lookup_insert:
                 r == od_len(o) + 1, od_len(d) == od_len(o) + 1,
                 forall_str(lambda k: Implies(od_has(o, k), And(od_has(d, k), od_get(d, k) == od_get(o, k)))),
                 forall_str(lambda k: Implies(od_has(d, k), Or(od_has(o, k), k == e.key))))),
+            # LRU stability (C01/C18): while fewer than max_size keys were used since the ghost mark, a used key is never
+            # the eviction victim, so it keeps its index
+            "used-keys-survive": Implies(o.t < L.max_size, od_stable(o, d)),
+            "lru-ghost": And(d.mark == o.mark, d.t <= o.t + 1, od_touched(d, e.key),
+                             forall_str(lambda k: Implies(And(od_has(d, k), k != e.key), od_rank(d, k) == od_rank(o, k)))),
             "evict-reuses-index": Implies(O._evicting, And(
                 od_len(d) == od_len(o), od_has(o, victim), Not(od_has(d, victim)), od_get(o, victim) == r,
                 forall_str(lambda k: Implies(And(od_has(o, k), k != victim), And(od_has(d, k), od_get(d, k) == od_get(o, k)))),
@@ -198,6 +205,8 @@ class _Enc_entry:
             "explicit-id-is-index": Implies(And(Not(isn), r != 0), r == od_get(d, e.key)),
             "last-assigned": Implies(Not(isn), E.last_assigned_index == od_get(d, e.key)),
             "key-resident": od_has(d, e.key),
+            "used-keys-survive": Implies(o.t < E.lookup.max_size, od_stable(o, d)),
+            "lru-ghost": And(d.mark == o.mark, od_touched(d, e.key), d.t <= o.t + z3.If(od_touched(o, e.key), 0, 1)),
             "live-entries-bounded": od_len(d) <= E.lookup.max_size,
             "wf": wf_enc(E),
             "coupled": R_enc(E),
@@ -222,6 +231,8 @@ class _Enc_term:
         return {"result-is-index": e.result == od_get(o, e.value),
                 "last-reused": E.last_reused_index == e.result,
                 "map-unchanged": And(d.mem == o.mem, d.val == o.val, d.n == o.n),
+                "lru-ghost": And(d.mark == o.mark, od_touched(d, e.value), od_stable(o, d),
+                                 d.t == o.t + z3.If(od_touched(o, e.value), 0, 1)),
                 "wf": wf_enc(E), "coupled": R_enc(E)}
 
 
@@ -248,6 +259,9 @@ class _Enc_name:
                 "reference-valid-for-spec": valid,
                 "reference-means-value": val == e.value,
                 "map-unchanged": And(d.mem == o.mem, d.val == o.val, d.n == o.n),
+                "lru-ghost": And(d.mark == o.mark, od_touched(d, e.value), od_stable(o, d),
+                                 d.t == o.t + z3.If(od_touched(o, e.value), 0, 1)),
+                "last-reused-is-index": E.last_reused_index == od_get(o, e.value),
                 "wf": wf_enc(E), "coupled": R_enc(E)}
 
 
@@ -281,6 +295,10 @@ class _Enc_prefix:
                 "reference-means-value": Implies(enabled, val == e.value),
                 "disabled-table-untouched": Implies(Not(enabled), And(E.last_reused_index == lri, od_unchanged(d, o))),
                 "map-unchanged": And(d.mem == o.mem, d.val == o.val, d.n == o.n),
+                "lru-ghost": And(d.mark == o.mark, od_stable(o, d), d.t <= o.t + z3.If(od_touched(o, e.value), 0, 1),
+                                 Implies(And(enabled, Not(And(e.value == "", lri == 0))),
+                                         And(od_touched(d, e.value), E.last_reused_index == od_get(o, e.value))),
+                                 Implies(And(enabled, e.value == "", lri == 0), And(E.last_reused_index == 0, od_unchanged(d, o)))),
                 "wf": wf_enc(E), "coupled": R_enc(E)}
 
 
@@ -310,6 +328,8 @@ class _Enc_dt:
                 "reference-valid-for-spec": Implies(enabled, valid),
                 "reference-means-value": Implies(enabled, val == e.value),
                 "map-unchanged": And(d.mem == o.mem, d.val == o.val, d.n == o.n),
+                "lru-ghost": And(d.mark == o.mark, od_stable(o, d), d.t <= o.t + z3.If(od_touched(o, e.value), 0, 1),
+                                 Implies(enabled, od_touched(d, e.value))),
                 "wf": wf_enc(E), "coupled": R_enc(E)}
 
 
